@@ -337,7 +337,7 @@ func testPrivKeys(n int) [][]byte {
 
 func init() {
 	p := register(&Prop{ID: "C15", Level: "exploration",
-		Rule: "exhaustive: for 12 (quick) / 28 (thorough) 20-byte hashes (all-zero, leading zeros, all-ff, structured) and 6/12 keys, both networks: derivation through every address/P2PKH constructor compared with a reference Base58Check encoder and the canonical 25-byte script; and for every derived address EVERY single-character substitution (58 symbols x every position), adjacent transposition, insertion (58 symbols + 6 non-Base58 characters at every gap incl. a leading '1') and deletion, plus wrong version bytes (0x05,0xc4,0x01), 24/26-byte payloads with correct checksums and over-long strings whose value is the payload plus k*2^200 (k in 9 values incl. multiples of 58); keys include two whose X coordinate begins with a zero byte, each through NewAddressFromString, NewP2PKHFromAddress, PayToAddress, ChangeToAddress and ValidateAddress: accepted iff the reference decoder accepts. distinct_nontrivial = distinct strings judged",
+		Rule: "exhaustive: for 12 (quick) / 28 (thorough) 20-byte hashes (all-zero, leading zeros, all-ff, structured) and 6/12 keys, both networks: derivation through every address/P2PKH constructor compared with a reference Base58Check encoder and the canonical 25-byte script; and for every derived address EVERY single-character substitution (58 symbols x every position, plus 5 non-ASCII replacements per position: code points U+01xx/U+20xx/U+100xx whose low byte is the replaced character, the character with the high bit set, 0xff), adjacent transposition, insertion (58 symbols + 6 non-Base58 characters at every gap incl. a leading '1') and deletion, plus wrong version bytes (0x05,0xc4,0x01), 24/26-byte payloads with correct checksums and over-long strings whose value is the payload plus k*2^200 (k in 9 values incl. multiples of 58); keys include two whose X coordinate begins with a zero byte, each through NewAddressFromString, NewP2PKHFromAddress, PayToAddress, ChangeToAddress and ValidateAddress: accepted iff the reference decoder accepts. distinct_nontrivial = distinct strings judged",
 	})
 	sStr := NewSpace(p, "strings", c15StrCheck)
 	sKey := NewSpace(p, "derive", c15KeyCheck)
@@ -385,6 +385,11 @@ func init() {
 						}
 					}
 					for _, e := range extra {
+						yield(c15Str{addr[:i] + e + addr[i+1:]})
+					}
+					// non-ASCII look-alikes: code points whose low byte is the replaced character, the
+					// character with its high bit set, a byte that is not UTF-8 at all
+					for _, e := range []string{string(rune(0x100 | int(addr[i]))), string(rune(0x2000 | int(addr[i]))), string([]byte{addr[i] | 0x80}), "\xff", string(rune(0x10000 | int(addr[i])))} {
 						yield(c15Str{addr[:i] + e + addr[i+1:]})
 					}
 					yield(c15Str{addr[:i] + addr[i+1:]}) // deletion
